@@ -280,13 +280,18 @@ func (m *StorageMiddleware) DeleteObject(ctx context.Context, bucket storage.Buc
 		if err != nil {
 			return nil, err
 		}
+		// IsDeleteMarker follows the S3 response header: it is also set when the
+		// version named by the request is itself a delete marker. Only a delete
+		// without a version id creates a marker; deleting a named version is a
+		// permanent delete.
+		markerCreated := result != nil && result.IsDeleteMarker && (opts == nil || opts.VersionID == nil)
 		eventName := EventObjectRemovedDelete
-		if result != nil && result.IsDeleteMarker {
+		if markerCreated {
 			eventName = EventObjectRemovedDeleteMarkerCreated
 		}
 		if overrideEventName, ok := storage.NotificationEventOverride(ctx); ok {
 			eventName = overrideEventName
-			if overrideEventName == EventLifecycleExpirationDelete && result != nil && result.IsDeleteMarker {
+			if overrideEventName == EventLifecycleExpirationDelete && markerCreated {
 				eventName = EventLifecycleExpirationDeleteMarker
 			}
 		}
@@ -314,12 +319,18 @@ func (m *StorageMiddleware) DeleteObjects(ctx context.Context, bucket storage.Bu
 			return nil, nil
 		}
 		var events []ObjectEvent
-		for _, deleted := range result.Entries {
+		for i, deleted := range result.Entries {
 			if !deleted.Deleted {
 				continue
 			}
+			// DeleteMarker is also set when the version named by the request is
+			// itself a delete marker; that is a permanent delete, not a new marker.
+			markerCreated := deleted.DeleteMarker != nil && *deleted.DeleteMarker
+			if markerCreated && len(result.Entries) == len(entries) && entries[i].Key == deleted.Key && entries[i].VersionID != nil {
+				markerCreated = false
+			}
 			eventName := EventObjectRemovedDelete
-			if deleted.DeleteMarker != nil && *deleted.DeleteMarker {
+			if markerCreated {
 				eventName = EventObjectRemovedDeleteMarkerCreated
 			}
 			event := ObjectEvent{EventName: eventName, Bucket: bucket, Key: deleted.Key, EventTime: time.Now().UTC()}
